@@ -110,6 +110,24 @@ func C04(tier string) int {
 	c04Long(run)
 	c04Slow(run)
 	c04Sched(run, tier)
+	run.Rule += " (e) a transfer in plaintext (DATA, BDAT, both, none), STARTTLS with a real handshake, then a transfer via DATA / BDAT LAST inside TLS with NOOP and MAIL pipelined behind it, x 3 modes x 5 messages: every command inside TLS gets its one reply."
+	// (e) a transfer in plaintext, STARTTLS (real handshake), a transfer inside TLS with commands pipelined behind it:
+	// every command inside TLS gets its one reply (the family of C02, judged here for the replies)
+	for _, mode := range []string{"smtp", "lmtp", "lmtp-rcpt"} {
+		for _, first := range []string{"none", "data", "bdat", "data+bdat"} {
+			for mi := range c02UpgradeMsgs {
+				for _, via := range []string{"data", "bdat"} {
+					c := C02UpgradeCase{Mode: mode, First: first, Msg: mi, Via: via}
+					f := evalC02Upgrade(c)
+					run.Eval(true)
+					if f != nil {
+						f.Sig = strings.Replace(f.Sig, "c02-", "c04-", 1)
+						run.Violate("c02-upgrade", c, f, func() *h.Finding { return evalC02Upgrade(c) })
+					}
+				}
+			}
+		}
+	}
 	return run.Finish()
 }
 
